@@ -488,7 +488,8 @@ Inductive item :=
 | ICutEnd (name ws : list Z)                                                 (* "</" name ws *)
 | ICutTag (name : list Z) (attrs : list attr)                                (* "<" name attributes *)
 | ICutRaw (name : list Z) (attrs : list attr) (ws content : list Z)          (* raw-text element without its end tag *)
-| ICutForeign (h : Z) (name inner : list Z).                                 (* svg / math / xml without its end tag: "<" name inner *)
+| ICutForeign (h : Z) (name inner : list Z)                                  (* svg / math / xml without its end tag: "<" name inner *)
+| ICutForeignEnd (h : Z) (name inner ename ews : list Z).                    (* svg / math / xml cut inside its end tag: ... "</" ename ews *)
 
 Definition item_bytes (i : item) : list Z :=
   match i with
@@ -512,6 +513,7 @@ Definition item_bytes (i : item) : list Z :=
   | ICutTag name attrs => 60 :: name ++ concat (map attr_bytes attrs)
   | ICutRaw name attrs ws content => (60 :: name ++ tag_rest attrs ws false) ++ content
   | ICutForeign h name inner => 60 :: name ++ inner
+  | ICutForeignEnd h name inner ename ews => 60 :: name ++ inner ++ 60 :: 47 :: ename ++ ews
   end.
 
 (* exactly one token per construct (a tag: one per part), lower-cased names, verbatim values *)
@@ -541,6 +543,8 @@ Definition item_obs (i : item) : list obs :=
   | ICutTag name attrs => mkObs StartTagT (60 :: map lower name) (map lower name) [] :: map attr_obs attrs
   | ICutRaw name attrs ws content => tag_obs name attrs false ++ [mkObs TextT content content []]
   | ICutForeign h name inner => [mkObs (foreign_ty h) (60 :: map lower name ++ inner) (map lower name) []]
+  | ICutForeignEnd h name inner ename ews =>
+      [mkObs (foreign_ty h) (60 :: map lower name ++ inner ++ 60 :: 47 :: ename ++ ews) (map lower name) []]
   end.
 
 Definition is_text (i : item) : bool := match i with IText _ | ITextLt _ _ => true | _ => false end.
@@ -548,7 +552,7 @@ Definition is_text (i : item) : bool := match i with IText _ | ITextLt _ _ => tr
 Definition is_plain (i : item) : bool :=
   match i with
   | IPlain _ _ _ _ | ITextLt _ _ | ICutComment _ | ICutCdata _ | ICutDoctype _ _ _ _ _ _ _ _ | ICutBogus _ _ | ICutEnd _ _
-  | ICutTag _ _ | ICutRaw _ _ _ _ | ICutForeign _ _ _ => true
+  | ICutTag _ _ | ICutRaw _ _ _ _ | ICutForeign _ _ _ | ICutForeignEnd _ _ _ _ _ => true
   | _ => false
   end.
 
@@ -607,6 +611,11 @@ Definition wf_item (i : item) : Prop :=
       to_hash (map lower name) = Ok h /\ is_xml_hash h = true /\
       (inner = [] \/ exists c r, inner = c :: r /\ (is_ws c = true \/ c = 62)) /\
       xml_cut_ok (length inner) h true 0 0 inner = true      (* every step of shiftXML continues up to the end of input (Wf.xml_step) *)
+  | ICutForeignEnd h name inner ename ews =>                  (* as IForeign, without the '>' of the end tag *)
+      (exists c nm, name = c :: nm /\ is_letter c = true) /\ Forall namechar name /\
+      to_hash (map lower name) = Ok h /\ to_hash (map lower ename) = Ok h /\ is_xml_hash h = true /\
+      (exists c r, inner = c :: r /\ (is_ws c = true \/ c = 62)) /\ xml_wf (length inner) h true 0 0 inner = true /\
+      Forall (fun c => is_letter c = true) ename /\ Forall (fun c => is_ws c = true) ews
   end.
 
 (* a document: well-formed items, no two texts in a row, plaintext only as the last item *)
@@ -711,7 +720,7 @@ Qed.
 
 Lemma nontext_tag_start i rest : wf_item i -> is_text i = false -> tag_start (item_bytes i ++ rest).
 Proof.
-  intros Hwf Ht. destruct i as [t|b|b|x0 x1 x2 x3 x4 x5 x6 after|name attrs ws void|name ws|name attrs ws content ename ews|h name inner ename ews|c1 body|name attrs ws content|ct ctl|cb|cdb|y0 y1 y2 y3 y4 y5 y6 cafter|cc1 cbody|cname cws|tname tattrs|rname rattrs rws rcontent|fh fname finner]; cbn [is_text] in Ht; try discriminate;
+  intros Hwf Ht. destruct i as [t|b|b|x0 x1 x2 x3 x4 x5 x6 after|name attrs ws void|name ws|name attrs ws content ename ews|h name inner ename ews|c1 body|name attrs ws content|ct ctl|cb|cdb|y0 y1 y2 y3 y4 y5 y6 cafter|cc1 cbody|cname cws|tname tattrs|rname rattrs rws rcontent|fh fname finner|ch cname cinner cename cews]; cbn [is_text] in Ht; try discriminate;
     cbn [item_bytes app wf_item] in *.
   - eexists _, _. split; [reflexivity|tauto].
   - eexists _, _. split; [reflexivity|tauto].
@@ -733,6 +742,7 @@ Proof.
     right; right; right. split; [reflexivity|]. cbn [app]. eexists _, _. split; [reflexivity|]. inversion Hb; assumption.
   - destruct Hwf as ((c & nm & -> & Hl) & _). cbn [app]. eexists _, _. split; [reflexivity|].
     right; right; right. split; [reflexivity|]. eexists _, _. split; [reflexivity|]. intros ->. discriminate.
+  - destruct Hwf as ((c & nm & -> & Hl) & _). cbn [app]. eexists _, _. split; [reflexivity|tauto].
   - destruct Hwf as ((c & nm & -> & Hl) & _). cbn [app]. eexists _, _. split; [reflexivity|tauto].
   - destruct Hwf as ((c & nm & -> & Hl) & _). cbn [app]. eexists _, _. split; [reflexivity|tauto].
   - destruct Hwf as ((c & nm & -> & Hl) & _). cbn [app]. eexists _, _. split; [reflexivity|tauto].
@@ -765,7 +775,7 @@ Qed.
 
 Lemma item_obs_noerr i : Forall (fun o => o_ty o <> ErrorT) (item_obs i).
 Proof.
-  destruct i as [t|b|b|x0 x1 x2 x3 x4 x5 x6 after|name attrs ws void|name ws|name attrs ws content ename ews|h name inner ename ews|c1 body|name attrs ws content|ct ctl|cb|cdb|y0 y1 y2 y3 y4 y5 y6 cafter|cc1 cbody|cname cws|tname tattrs|rname rattrs rws rcontent|fh fname finner];
+  destruct i as [t|b|b|x0 x1 x2 x3 x4 x5 x6 after|name attrs ws void|name ws|name attrs ws content ename ews|h name inner ename ews|c1 body|name attrs ws content|ct ctl|cb|cdb|y0 y1 y2 y3 y4 y5 y6 cafter|cc1 cbody|cname cws|tname tattrs|rname rattrs rws rcontent|fh fname finner|ch cname cinner cename cews];
     cbn [item_obs]; unfold tag_obs; repeat (constructor || apply Forall_app; try split); cbn [o_ty]; try discriminate.
   - rewrite Forall_map. apply Forall_forall. intros [? ?|? ? ? ? ?] _; discriminate.
   - destruct void; discriminate.
@@ -775,6 +785,7 @@ Proof.
   - rewrite Forall_map. apply Forall_forall. intros [? ?|? ? ? ? ?] _; discriminate.
   - rewrite Forall_map. apply Forall_forall. intros [? ?|? ? ? ? ?] _; discriminate.
   - unfold foreign_ty. destruct (fh =? html_hash_Svg); [discriminate|]. destruct (fh =? html_hash_Math); discriminate.
+  - unfold foreign_ty. destruct (ch =? html_hash_Svg); [discriminate|]. destruct (ch =? html_hash_Math); discriminate.
 Qed.
 
 (* a token that is the whole of X (nothing lower-cased) with Text() = X[a, a+n) *)
@@ -798,7 +809,7 @@ Lemma lexes_item i d l pre rest : at_input d l pre (item_bytes i ++ rest) -> int
 Proof.
   intros Hat Hit Hraw Hlerr Hwf Hnext Hlast. destruct (at_input_buflen _ _ _ _ Hat) as [Hbl Hpre0].
   pose proof (len_nonneg rest) as Hrest0.
-  destruct i as [t|b|b|x0 x1 x2 x3 x4 x5 x6 after|name attrs ws void|name ws|name attrs ws content ename ews|h name inner ename ews|c1 body|name attrs ws content|ct ctl|cb|cdb|y0 y1 y2 y3 y4 y5 y6 cafter|cc1 cbody|cname cws|tname tattrs|rname rattrs rws rcontent|fh fname finner]; cbn [item_bytes item_obs wf_item is_text is_plain] in *.
+  destruct i as [t|b|b|x0 x1 x2 x3 x4 x5 x6 after|name attrs ws void|name ws|name attrs ws content ename ews|h name inner ename ews|c1 body|name attrs ws content|ct ctl|cb|cdb|y0 y1 y2 y3 y4 y5 y6 cafter|cc1 cbody|cname cws|tname tattrs|rname rattrs rws rcontent|fh fname finner|ch cname cinner cename cews]; cbn [item_bytes item_obs wf_item is_text is_plain] in *.
   - (* text *)
     destruct Hwf as [Hne Ht].
     destruct (next_text d l pre t rest Hat Hit Hraw Hne Ht (Hnext eq_refl)) as (l' & Hn & Htx & Hb & Hi' & Hr' & _).
@@ -1134,6 +1145,33 @@ Proof.
       symmetry. replace (1 + len fname + (1 + len fname + len finner - (1 + len fname))) with (1 + len fname + len finner) by lia.
       pose proof (slice_mid ([60] ++ fname) finner []) as E. rewrite app_nil_r in E.
       replace (len ([60] ++ fname)) with (1 + len fname) in E by (rewrite len_app; reflexivity).
+      rewrite <- app_assoc in E. exact E.
+    + rewrite view_bytes_lower_view by (cbn [so sn]; lia). rewrite Hname. reflexivity.
+  - (* svg / math / xml cut inside its end tag *)
+    destruct Hwf as (Hn1 & Hn2 & Hh & Heh & Hxml & Hin1 & Hin2 & Helet & Hews). rewrite (Hlast eq_refl) in *.
+    set (finner := cinner ++ 60 :: 47 :: cename ++ cews) in *.
+    assert (Hat0 : at_input d l pre (60 :: cname ++ finner)) by (rewrite app_nil_r in Hat; exact Hat).
+    assert (Hlf : len finner = len cinner + 2 + len cename + len cews) by (unfold finner; rewrite len_app, !len_cons, len_app; lia).
+    destruct (next_foreign_cut_end d l pre cname cinner cename cews ch Hat0 Hit Hraw Hlerr Hn1 Hn2 Hh Heh Hxml Hin1 Hin2 Helet Hews) as (l' & Hn & Htx & Hb & Hi' & Hr' & _).
+    replace (1 + len cname + len cinner + 2 + len cename + len cews) with (1 + len cname + len finner) in Hn by lia.
+    exists l'. split; [|tauto]. pose proof (len_nonneg cname). pose proof (len_nonneg finner).
+    assert (Hl : len (60 :: cname ++ finner) = 1 + len cname + len finner) by (rewrite !len_cons, len_app; lia).
+    eapply lexes_one; [exact Hat|exact Hn|cbn [so sn]; lia|].
+    cbn [observe]. rewrite Htx, Hb. cbn [opt_bytes].
+    replace (foreign_ty ch =? AttributeT) with false by (unfold foreign_ty; destruct (ch =? html_hash_Svg); [reflexivity|]; destruct (ch =? html_hash_Math); reflexivity).
+    destruct (at_input_buflen _ _ _ _ Hat0) as [Hbl0 _]. rewrite Hl in Hbl0.
+    assert (Hname : view_bytes (lbuf (lz l)) (mkSl (len pre + 1) (len cname)) = cname).
+    { rewrite (at_input_view d l pre _ 1 (len cname) Hat0) by lia. pose proof (slice_mid [60] cname finner) as E. exact E. }
+    f_equal.
+    + replace (mkSl (len pre + 1) (len cname)) with (mkSl (len pre + 1) (1 + len cname - 1)) by (f_equal; lia).
+      rewrite view_lower_middle by lia. replace (1 + len cname - 1) with (len cname) by lia. rewrite Hname.
+      rewrite (at_input_view0 d l pre _ 1 Hat0) by lia.
+      rewrite (at_input_view d l pre _ (1 + len cname) (1 + len cname + len finner - (1 + len cname)) Hat0) by lia.
+      change (slice (60 :: cname ++ finner) 0 1) with [60].
+      replace (slice (60 :: cname ++ finner) (1 + len cname) (1 + len cname + (1 + len cname + len finner - (1 + len cname)))) with finner; [reflexivity|].
+      symmetry. replace (1 + len cname + (1 + len cname + len finner - (1 + len cname))) with (1 + len cname + len finner) by lia.
+      pose proof (slice_mid ([60] ++ cname) finner []) as E. rewrite app_nil_r in E.
+      replace (len ([60] ++ cname)) with (1 + len cname) in E by (rewrite len_app; reflexivity).
       rewrite <- app_assoc in E. exact E.
     + rewrite view_bytes_lower_view by (cbn [so sn]; lia). rewrite Hname. reflexivity.
 Qed.
@@ -1492,4 +1530,16 @@ Proof.
     split; [constructor|]. split; [constructor|]. left.
     split; [eexists _, _; split; [reflexivity|split; discriminate]|]. split; [repeat constructor; vm_compute; repeat split; discriminate|].
     right. eexists _, _. split; [reflexivity|left; reflexivity].
+Qed.
+
+(* non-vacuity of the svg cut inside its end tag: <svg>x</SVG followed by a blank *)
+Example html_wellformed_cut_foreign_end_nonvacuous :
+  let doc := [ ICutForeignEnd html_hash_Svg [115; 118; 103] [62; 120] [83; 86; 71] [32] ] in
+  wf_doc doc /\ exists tr, run no_tmpl 2 (new_lexer (doc_bytes doc)) = Ok tr /\ map observe tr = doc_obs doc ++ [mkObs ErrorT [] [] []].
+Proof.
+  split; [|eexists; split; vm_compute; reflexivity]. cbn [wf_doc is_text is_plain].
+  split; [|split; [discriminate|split; [reflexivity|exact I]]].
+  cbn [wf_item]. split; [eexists _, _; split; reflexivity|]. split; [repeat constructor; vm_compute; repeat split; discriminate|].
+  split; [vm_compute; reflexivity|]. split; [vm_compute; reflexivity|]. split; [vm_compute; reflexivity|].
+  split; [eexists _, _; split; [reflexivity|right; reflexivity]|]. split; [vm_compute; reflexivity|]. split; repeat constructor.
 Qed.
